@@ -173,6 +173,7 @@ def derived_cases(tier, seed):
         for stream in ("ap", "lf"):
             for nsaved in (2, 3, 4, 5, 6, 277, 385):
                 out.append(("imec", kind, stream, nsaved))
+            out.append(("imec", kind, stream, -5))          # five channels saved without the sync word
     for mn, ma, xa, dw in itertools.product((0, 1, 2), (0, 1, 2), (0, 1, 2), (0, 1)):
         if mn + ma + xa + dw:
             out.append(("nidq", mn, ma, xa, dw))
@@ -196,7 +197,10 @@ def derived_check(case):
     ntr = 0
     if case[0] == "imec":
         _, kind, stream, nsaved = case
-        k = nsaved - 1
+        nsync = 1
+        if nsaved < 0:
+            nsaved, nsync = -nsaved, 0
+        k = nsaved - nsync
         fam = synth.family(kind)
         if fam == "NP1":
             sites = [(0, i // 2, (2, 0)[i % 2] if (i // 2) % 2 == 0 else (3, 1)[i % 2]) for i in range(k)]
@@ -215,7 +219,7 @@ def derived_check(case):
             if fam == "NP2" and mi is None:
                 vr, mi = 0.5, 8192
             ns = NSS[pi % len(NSS)]
-            items = synth.meta_items(kind, sites, ns, stream=stream, fs=fs, gains=gains, vrange=vr, maxint=mi,
+            items = synth.meta_items(kind, sites, ns, stream=stream, fs=fs, gains=gains, vrange=vr, maxint=mi, nsync=nsync,
                                      encoding="geom" if (pi % 2 and fam != "NPultra") else "shank")
             fmeta = os.path.join(d, "drv_g0_t0.imec0.%s.meta" % stream)
             with open(fmeta, "w") as f:
@@ -223,20 +227,20 @@ def derived_check(case):
             try:
                 sr = spikeglx.Reader(fmeta)
                 ntr += 1
-                ref = np.array(synth.ref_s2v(kind, stream, k, 1, gains=gains, vrange=vr, maxint=mi))
+                ref = np.array(synth.ref_s2v(kind, stream, k, nsync, gains=gains, vrange=vr, maxint=mi))
                 s2v = np.asarray(sr.sample2volts, dtype=float)
                 if s2v.shape != ref.shape or not np.allclose(s2v, ref, rtol=1e-6, atol=0):
                     j = int(np.argmax(np.abs(s2v / ref - 1))) if s2v.shape == ref.shape else -1
                     bad("s2v:%s" % stream, "%s %s nsaved=%d gains(ch %d)=%r range=%r maxint=%r: volts/bit %r != range/maxint/gain %r (channel %d)"
                         % (kind, stream, nsaved, pos, (gap, glf), vr, mi, s2v[j] if j >= 0 else s2v.shape, ref[j] if j >= 0 else ref.shape, j))
-                if s2v.shape == ref.shape and s2v[-1] != 1:
+                if s2v.shape == ref.shape and nsync and s2v[-1] != 1:
                     bad("s2v:sync", "sync gain is %r" % s2v[-1])
                 if sr.version != synth.VERSION_NAME[kind]:
                     bad("version", "%s reported as %r" % (kind, sr.version))
                 if sr.type != stream:
                     bad("type", "stream %s reported as %r" % (stream, sr.type))
-                if sr.nc != nsaved or sr.nsync != 1:
-                    bad("counts", "nc=%r nsync=%r for %d saved channels with 1 sync" % (sr.nc, sr.nsync, nsaved))
+                if sr.nc != nsaved or sr.nsync != nsync:
+                    bad("counts", "nc=%r nsync=%r for %d saved channels with %d sync" % (sr.nc, sr.nsync, nsaved, nsync))
                 if float(sr.fs) != float(fs):
                     bad("fs", "fs=%r, metadata says %r" % (sr.fs, fs))
                 if sr.ns != ns:
